@@ -256,6 +256,84 @@ class Unpack(ast.NodeTransformer):
         return node
 
 
+class Reorder(ast.NodeTransformer):
+    """swap two adjacent assignments to plain names that are independent of each other (call-free right-hand sides)"""
+    def _block(self, stmts):
+        stmts = [self.visit(s) for s in stmts]
+        out, i = [], 0
+        while i < len(stmts):
+            a = stmts[i]
+            b = stmts[i + 1] if i + 1 < len(stmts) else None
+            if b is not None and self._indep(a, b):
+                out.extend([b, a])
+                i += 2
+            else:
+                out.append(a)
+                i += 1
+        return out
+
+    @staticmethod
+    def _indep(a, b):
+        for s in (a, b):
+            if not (isinstance(s, ast.Assign) and len(s.targets) == 1 and isinstance(s.targets[0], ast.Name) and _simple(s.value)):
+                return False
+        ta, tb = a.targets[0].id, b.targets[0].id
+        ra = {x.id for x in ast.walk(a.value) if isinstance(x, ast.Name)}
+        rb = {x.id for x in ast.walk(b.value) if isinstance(x, ast.Name)}
+        return ta != tb and ta not in rb and tb not in ra
+
+    def generic_visit(self, node):
+        for fld in ('body', 'orelse', 'finalbody'):
+            blk = getattr(node, fld, None)
+            if isinstance(blk, list) and blk and isinstance(blk[0], ast.stmt):
+                setattr(node, fld, self._block(blk))
+        for h in getattr(node, 'handlers', []) or []:
+            h.body = self._block(h.body)
+        return node
+
+    def visit_Lambda(self, node):
+        return node
+
+    def visit_ClassDef(self, node):
+        # class bodies: only descend into methods
+        node.body = [self.visit(s) if isinstance(s, (ast.FunctionDef, ast.AsyncFunctionDef, ast.ClassDef)) else s for s in node.body]
+        return node
+
+    def visit_Module(self, node):
+        node.body = [self.visit(s) if isinstance(s, (ast.FunctionDef, ast.AsyncFunctionDef, ast.ClassDef)) else s for s in node.body]
+        return node
+
+
+class KwLast(ast.NodeTransformer):
+    """f(a, b) -> f(a, y=b) for calls of a function defined exactly once at the top level of the same module (plain
+    positional parameters, no decorators, name not rebound anywhere in the module)"""
+    def visit_Module(self, node):
+        defs = {}
+        for s in node.body:
+            if isinstance(s, ast.FunctionDef):
+                defs.setdefault(s.name, []).append(s)
+        stores = {x.id for x in ast.walk(node) if isinstance(x, ast.Name) and isinstance(x.ctx, ast.Store)} | \
+                 {a.arg for a in ast.walk(node) if isinstance(a, ast.arg)}
+        self.sig = {}
+        for name, ds in defs.items():
+            d = ds[0]
+            if len(ds) == 1 and not d.decorator_list and name not in stores and not d.args.posonlyargs and not d.args.vararg:
+                self.sig[name] = [a.arg for a in d.args.args]
+        self.generic_visit(node)
+        return node
+
+    def visit_Call(self, node):
+        self.generic_visit(node)
+        if isinstance(node.func, ast.Name) and node.func.id in getattr(self, 'sig', {}) and node.args \
+                and not any(isinstance(a, ast.Starred) for a in node.args) and not any(k.arg is None for k in node.keywords):
+            params = self.sig[node.func.id]
+            n = len(node.args)
+            if n <= len(params) and params[n - 1] not in {k.arg for k in node.keywords}:
+                last = node.args.pop()
+                node.keywords.insert(0, ast.keyword(arg=params[n - 1], value=last))
+        return node
+
+
 def main():
     kind, dest = sys.argv[1], sys.argv[2]
     repo = sys.argv[3] if len(sys.argv) > 3 else '/repo'
@@ -266,7 +344,7 @@ def main():
         shutil.copytree(os.path.join(repo, sub), os.path.join(dest, sub),
                         ignore=shutil.ignore_patterns('*.so', '*.c', '*.cpp', '__pycache__', 'build', '*.o'))
     T = {'rename': Rename, 'ifswap': IfSwap, 'temp': RetTemp, 'cmpflip': CmpFlip, 'nestand': NestAnd, 'testtemp': TestTemp,
-         'early': Early, 'range0': Range0, 'notin': NotIn, 'chain': Chain, 'unpack': Unpack}[kind]
+         'early': Early, 'range0': Range0, 'notin': NotIn, 'chain': Chain, 'unpack': Unpack, 'reorder': Reorder, 'kwlast': KwLast}[kind]
     n = 0
     for root, _d, files in os.walk(os.path.join(dest, 'pyiga')):
         for f in files:
